@@ -104,6 +104,8 @@ def build_schedules(seed, groups, thorough):
                         keep.append(st)
                     seen.add(kk)
                 tam = keep
+            if thorough:       # every case under three independent configurations (sizes, network, amounts, element, bit)
+                tam = tam * 3
             r.shuffle(tam)
             size = 60
             for a in range(0, len(tam), size):
